@@ -134,8 +134,11 @@ def jax_template(ctx: Ctx, rule: str):
         stores = [norm(n) for n in ast.walk(tree) if isinstance(n, (ast.Assign, ast.AugAssign)) and any(isinstance(x, ast.Subscript) for t in (n.targets if isinstance(n, ast.Assign) else [n.target]) for x in ast.walk(t))]
         ctx.check(not stores, rule, skx.func.key("no-subscript-store"), "no in-place store", f"jax template {fn} contains an in-place subscript store {stores} (jax arrays are immutable)", skx.func.where())
     g = sm.func("codegen/jax.py", "JaxCodeGenerator.imports")
-    txt = " ".join(s for s in pm.fragments(g))
-    ctx.check("import jax.numpy as numpy" in txt and "jax_enable_x64" in txt, rule, g.key("imports"), "numpy is jax.numpy with 64 bit enabled", "JaxCodeGenerator.imports no longer binds numpy to jax.numpy with x64 enabled", g.where())
+    txt = util.text_of(ctx, g)
+    if txt is None:
+        ctx.undecided(rule, g.key("imports"), "what JaxCodeGenerator.imports returns is not understood", g.where())
+    else:
+        ctx.check("import jax.numpy as numpy" in txt and "jax_enable_x64" in txt, rule, g.key("imports"), "numpy is jax.numpy with 64 bit enabled", "JaxCodeGenerator.imports no longer binds numpy to jax.numpy with x64 enabled", g.where())
     gen = sm.cls("codegen/jax.py", "JaxCodeGenerator")
     initf = gen.methods.get("__init__")
     okpr = initf is not None and any(isinstance(n, ast.Assign) and norm(n.targets[0]) == "self._printer" and norm(n.value) == "JaxPrinter()" for n in ast.walk(initf.node))
@@ -190,7 +193,7 @@ def check_nested(ctx: Ctx, rule: str, nf):
         d, it, init, body = v[1], v[2], v[3], v[4]
         # operands: every element of expr.args, printed; first one seeds the fold, the rest are folded in
         ops = r"<self\._print\(\$(\d+)\) for \$\1 in " + re.escape(ep) + r"\.args>"
-        ok_i = re.fullmatch(ops + r"\[1:\]", av.show(it)) is not None and re.fullmatch(ops + r"\[0\]", av.show(init)) is not None
+        ok_i = re.fullmatch(ops + r"\[1:\]", av.show(it)) is not None and av.show(init) == f"self._print({ep}.args[0])"
         ok_b = body == av.mk_s((("h", ("sym", fp)), ("lit", "("), ("h", ("acc", d)), ("lit", ", "), ("h", ("bv", d)), ("lit", ")")))
         ok = ok_i and ok_b
         if not ok_b:
